@@ -42,7 +42,7 @@ def r20_1(ctx: Ctx) -> RuleResult:
     for fn, call, subj, ks, murky in site_kinds(ctx):
         if class_of(fn) == "KeysSelector":
             continue
-        k = appended_part(call)
+        k = appended_part(call, fn.node)
         if k is None or ks is None:
             raise AnalysisError(f"R20.1: cannot find the appended part at {fn.loc(call)}")
         if fn.qualname not in flows:
